@@ -118,6 +118,7 @@ func run(r *report.Report, f rules.PropertyFunc, tier, mutantSpec string) (code 
 	// registers the helper and the check is run again with the helper folded into that caller
 	for pass := 0; ; pass++ {
 		c.Fold.Changed = false
+		c.Sub = nil
 		f(c)
 		if !c.Fold.Changed || pass >= 3 {
 			break
